@@ -80,7 +80,8 @@ def profile(prop):
                  variants={'n_jobs': 2.0, 'permute': 0.7, 'relabel': 0.4,
                            'addcols': 0.4, 'repeat': 0.4, 'copy_right': 0.9},
                  faults={'worker_crash': 0.5, 'tok_raise': 0.4,
-                         'sim_raise': 0.1}, p_fault=0.25, tight=0.15)
+                         'sim_raise': 0.1}, p_fault=0.25, tight=0.15,
+                 siblings=0.2)
     elif prop == 'C11':
         p.update(ops={'join': 0.6, 'filter_tables': 0.4}, outs=1.0, extras=1.0,
                  measures=SET_JOINS + ['EDIT_DISTANCE'], p_missing=0.15,
